@@ -449,5 +449,8 @@ func ReleaseDead() {
 // IsMapped reports whether addr lies in a live or poisoned file mapping.
 func IsMapped(addr uintptr) bool { _, _, ok := Locate(addr); return ok }
 
+// LiveCount is the number of mappings made and not yet unmapped.
+func LiveCount() int { return len(live) }
+
 // DeadCount is the number of poisoned ranges.
 func DeadCount() int { return len(dead) }
